@@ -417,6 +417,27 @@ func ruleOU1(c *Ctx) {
 		c.bad("main", "command-roots", "-", "no cobra command closures found")
 		return
 	}
+	// what cobra runs around every command (PersistentPreRunE ...) is not a command of its own: it must not print text
+	// under --json, any JSON value it writes counts towards every command's one value, and it need not write one itself
+	hook := map[*ssa.Function]bool{}
+	handler := map[*ssa.Function]bool{}
+	for _, r := range c.cobraRegistrations() {
+		if isHookField(r.Field) {
+			hook[r.Fn] = true
+		} else if r.Field == "Run" || r.Field == "RunE" {
+			handler[r.Fn] = true
+		}
+	}
+	hookJ := 0
+	for _, root := range roots {
+		if hook[root] && !handler[root] {
+			if s := o.eval(root, map[*ssa.Parameter]tri{}); s.maxJ > 0 {
+				if hookJ += s.maxJ; hookJ > inf {
+					hookJ = inf
+				}
+			}
+		}
+	}
 	seenText := map[string]bool{}
 	for _, root := range roots {
 		s := o.eval(root, map[*ssa.Parameter]tri{})
@@ -441,6 +462,14 @@ func ruleOU1(c *Ctx) {
 				"under --json this text write to stdout is reachable (from "+name+"): stdout is no longer a single JSON value")
 		}
 		c.check(len(s.texts) == 0, name, "a:no-text-under-json", c.FnPos(root), "no text stdout writer reachable under --json", fmt.Sprintf("%d text writes to stdout reachable under --json", len(s.texts)))
+		if hook[root] && !handler[root] {
+			continue
+		}
+		if handler[root] && hookJ > 0 {
+			if s.maxJ += hookJ; s.maxJ > inf {
+				s.maxJ = inf
+			}
+		}
 		// (b)
 		c.check(s.maxJ <= 1, name, "b:at-most-one-json", c.FnPos(root), fmt.Sprintf("at most %s JSON value on any path", fmtCount(s.maxJ)),
 			fmt.Sprintf("up to %s JSON values can be written to stdout on one path", fmtCount(s.maxJ)))
